@@ -42,6 +42,7 @@ fn run_line(line: &str) -> String {
         "SUFFIX" => textapi::run_suffix(args),
         "CSTRNEW" => textapi::run_cstrnew(args),
         "TXTTEXT" => textapi::run_txttext(args),
+        "HDRMOD" => header::run_hdrmod(args),
         "TXTATTR" => textapi::run_txtattr(args),
         "ATTRMAP" => textapi::run_attrmap(args),
         "ESCAPE" => textapi::run_escape(args),
